@@ -28,10 +28,12 @@ def main(tier, replay):
             if l.startswith("HISTO "):
                 _, k, v = l.split()
                 hist[k] = int(v)
-            m = re.match(r"ORACLE-DONE checks=(\d+) fails=(\d+) screened=(\d+) known=(\d+)", l)
+            m = re.match(r"ORACLE-DONE checks=(\d+) fails=(\d+) screened=(\d+) known=(\d+) nonempty_rows=(\d+) elements=(\d+)", l)
             if m:
                 extra["oracle_rows_screened_out"] = int(m.group(3))
                 extra["oracle_known_class_hits"] = int(m.group(4))
+                extra["oracle_rows_nonempty"] = int(m.group(5))
+                extra["oracle_row_elements"] = int(m.group(6))
         extra["input_distribution"] = hist
         if stats.get("oracle_checks", 0) == 0:
             chk.violation("oracle-missing", "the harness did not finish its oracle (no ORACLE-DONE line)", "no ORACLE-DONE", found_input=False)
